@@ -76,6 +76,9 @@ type ScriptCase struct {
 	// deviations (model.M.AsIs): used to decide whether a failure is exactly a
 	// listed finding or something else.
 	ModelAsIs bool `json:"modelAsIs,omitempty"`
+	// BusyBus: see Options.BusyBus (an event reaches the instance while it is
+	// being built).
+	BusyBus bool `json:"busyBus,omitempty"`
 }
 
 // ScriptOutcome of a scripted run.
@@ -192,7 +195,7 @@ func RunScript(c *ScriptCase) *ScriptOutcome {
 		perturb.Install(c.Perturb, 50, sites)
 		defer perturb.Remove()
 	}
-	in, err := New(out.XML, Options{Vars: c.Vars, MockClock: c.MockClock})
+	in, err := New(out.XML, Options{Vars: c.Vars, MockClock: c.MockClock, BusyBus: c.BusyBus})
 	if err != nil {
 		out.Symptom, out.Detail = "construct", err.Error()
 		return out
